@@ -7,6 +7,7 @@ import JominiModel.Proofs.TextTapeInv
 import JominiModel.Proofs.TextTapeScalars
 import JominiModel.Proofs.TextTapeFaithful
 import JominiModel.Proofs.TextTapeTotal
+import JominiModel.Proofs.TextTapeFaithful2
 import JominiModel.Generated.Tables
 /-
 C01 — Text tape mirrors the document's structure regardless of layout.
@@ -106,10 +107,11 @@ of objects, empty containers, headers, parameter blocks, mixed containers, optio
                              parse (render L ls) = parse (render L' ls)             (up to positions)
 Proved so far: fragment 1 = flat documents (top-level `key op value` fields, all 8 operators,
 quoted scalars with escapes, unquoted scalars, any valid blank layout incl. comments, `;`, CR/LF,
-tight gaps where lexically permitted).  Missing fragments: containers (objects, arrays, empty
-containers, optional `=`), headers, parameter blocks, mixed containers, `@[..]` variables, BOM in
-front of a document (C01_bom covers it separately).  These are decided by the correspondence run
-and the layout/faithfulness oracles only.
+tight gaps where lexically permitted); fragment 2 = the same with nested non-empty objects of any
+depth as values (`key op { fields }`, incl. `?=` / `!=` on the first field).  Missing fragments:
+arrays and arrays of objects, empty containers, the optional `=` before `{`, ghost `{}`, headers,
+parameter blocks, mixed containers, `@[..]` variables, BOM in front of a document (C01_bom covers
+it separately).  These are decided by the correspondence run and the layout/faithfulness oracles.
 -/
 /-- fragment 1 of C01_faithful: a flat document under ANY valid layout parses to a tape that is,
 up to the scalar positions, exactly the document's keys, operators and scalar bytes (quoted vs
@@ -136,6 +138,31 @@ theorem C01_layout_independent_flat_partial (fs fs' : List LField) (gt gt' : Byt
     ∃ T T', parse (renderFlat fs gt) = .ok T false ∧ parse (renderFlat fs' gt') = .ok T' false ∧
       T.map Tok.erase = T'.map Tok.erase :=
   layout_independent_flat fs fs' gt gt' hv hv' hb hb' hc
+
+/-- fragment 2 of C01_faithful: a document of nested objects under ANY valid layout parses to a
+tape that is, up to the scalar positions, exactly the document's content with the object
+boundaries and their `end` links. -/
+theorem C01_faithful_nested_partial (fs : LFields) (gt : Bytes) (hgt : Blank gt) (hv : ValidF fs gt)
+    (hb : hasBom (renderF fs ++ gt) = false) :
+    ∃ T, parse (renderF fs ++ gt) = .ok T false ∧ T.map Tok.erase = ctapeF (contentFs fs) 0 :=
+  faithful_nested fs gt hgt hv hb
+
+/-- fragment 2 of C01_layout_independent. -/
+theorem C01_layout_independent_nested_partial (fs fs' : LFields) (gt gt' : Bytes)
+    (hgt : Blank gt) (hgt' : Blank gt') (hv : ValidF fs gt) (hv' : ValidF fs' gt')
+    (hb : hasBom (renderF fs ++ gt) = false) (hb' : hasBom (renderF fs' ++ gt') = false)
+    (hc : contentFs fs = contentFs fs') :
+    ∃ T T', parse (renderF fs ++ gt) = .ok T false ∧ parse (renderF fs' ++ gt') = .ok T' false ∧
+      T.map Tok.erase = T'.map Tok.erase :=
+  layout_independent_nested fs fs' gt gt' hgt hgt' hv hv' hb hb' hc
+
+/-- the hypotheses are satisfiable: `a={b="x" c<{d=e}}⏎`. -/
+example : ValidF exampleNested [10] ∧ Blank [10] ∧ hasBom (renderF exampleNested ++ [10]) = false :=
+  exampleNested_valid
+
+/-- and its parse is the tape the theorem predicts. -/
+example : parse (renderF exampleNested ++ [10]) = .ok (tapeF exampleNested 0 [10]) false := by
+  decide +kernel
 
 /-- the hypotheses are satisfiable: `a ?= #x⏎"b\"c"⏎`. -/
 example : ValidFlat exampleFlat [10] ∧ hasBom (renderFlat exampleFlat [10]) = false := exampleFlat_valid
